@@ -404,10 +404,12 @@ impl<'names> GlifParser<'names> {
     }
 
     fn parse_unicode(&mut self, data: BytesStart) -> Result<(), GlifLoadError> {
+        let mut seen_hex = false;
         for attr in data.attributes() {
             let attr = attr?;
             match attr.key.as_ref() {
                 b"hex" => {
+                    seen_hex = true;
                     let value = attr.unescape_value()?;
                     let chr = u32::from_str_radix(&value, 16)
                         .map_err(|_| value.to_string())
@@ -417,6 +419,10 @@ impl<'names> GlifParser<'names> {
                 }
                 _other => return Err(ErrorKind::UnexpectedAttribute.into()),
             }
+        }
+        // the hex attribute is required
+        if !seen_hex {
+            return Err(ErrorKind::BadHexValue.into());
         }
         Ok(())
     }
